@@ -216,7 +216,8 @@ class SFTPServer(BaseSFTP, SubsystemHandler):
         if attr._flags & attr.FLAG_AMTIME:
             os.utime(filename, (attr.st_atime, attr.st_mtime))
         if attr._flags & attr.FLAG_SIZE:
-            with open(filename, "w+") as f:
+            # (not mode "w+", which would first throw the contents away)
+            with open(filename, "r+b") as f:
                 f.truncate(attr.st_size)
 
     # ...internals...
